@@ -43,6 +43,7 @@ class Harness:
         self.var_bits = {v[0]: (v[2] if len(v) > 2 else self.cellbits) for v in variables}
         self.blocks = {b.name: b for b in blocks}
         lines = []
+        placed = init if isinstance(init, tuple) else None   # ('placed', [hex table macros in allocation order], filler ops)
         if init == 'all':
             lines.append('stl.startup_and_init_all' + (f' {stack}' if stack else ''))
         elif init == 'pointers':
@@ -72,6 +73,14 @@ class Harness:
                 lines.append('    stl.loop')
         lines.append('blk__end:')
         lines.append('    stl.loop')
+        if placed:
+            # the library's tables allocated one by one (as each macro's documentation allows), in the given order, `filler` ops after a
+            # 1024-op boundary: every table is met at several placements relative to its own alignment
+            lines.append('pad 1024')
+            if placed[2]:
+                lines.append(f'rep({placed[2]}, i) stl.fj 0, 0')
+            lines.append('hex.tables.init_shared')
+            lines.extend(f'hex.{t}.init' for t in placed[1])
         self.text = '\n'.join(lines) + '\n'
         out, dbg = wd / f'{tag}.fjm', wd / f'{tag}.fjd'
         assemble_text(self.text, out, wd, w=w, version=1, use_stl=True, werror=False, debug_path=dbg)
